@@ -6,6 +6,7 @@ CONSTANTS
   MaxVer = 4
   MaxKills = 2
   MaxRuns = 4
+  Caches = FALSE
   Variant = "pre_fix"
 INVARIANTS TypeOK C24_ReportedMeansEqual NoTornReported MarkedWhileDirty
 CHECK_DEADLOCK FALSE
